@@ -427,7 +427,9 @@ func (h *histogram) snapshotValues() map[float64]int64 {
 
 	vals := make(map[float64]int64, len(h.buckets))
 	for i := range h.buckets {
-		vals[h.buckets[i].valueUpperBound] = h.samples[i].counter.snapshot()
+		// n.b. Duplicated bounds give buckets with equal upper bounds, add
+		//      them up rather than keeping the last one.
+		vals[h.buckets[i].valueUpperBound] += h.samples[i].counter.snapshot()
 	}
 
 	return vals
@@ -440,7 +442,8 @@ func (h *histogram) snapshotDurations() map[time.Duration]int64 {
 
 	durations := make(map[time.Duration]int64, len(h.buckets))
 	for i := range h.buckets {
-		durations[h.buckets[i].durationUpperBound] = h.samples[i].counter.snapshot()
+		// n.b. See snapshotValues.
+		durations[h.buckets[i].durationUpperBound] += h.samples[i].counter.snapshot()
 	}
 
 	return durations
